@@ -275,6 +275,10 @@ def random_edit(r, nb, newfams=(7, 8, 21, 22)):
         cells[i] = {"cid": fresh, "fam": r.choice(newfams), "kind": kind, "src": r.choice([0, 1]),
                     "outs": 1 if kind == "code" else 0, "md": 0, "ec": 1 if kind == "code" else 0, "att": 0}
         label = ("Replace", i)
+    elif k < 0.39:
+        i = r.randrange(n)
+        cells[i]["kind"] = "markdown" if cells[i]["kind"] == "code" else "code"
+        label = ("ChangeKind", i)
     elif k < 0.40:
         i = r.randrange(n)
         cells[i]["cid"] = fresh + r.randint(0, 3) * 7      # both sides may re-id the same cell differently
